@@ -487,6 +487,20 @@ pub fn step(app: &mut SApp, nm: &Names, st: &SState, op: &SOp, cfg: &Cfg, ops_al
             return Step { next: None, ok: res.is_ok(), tolerated_err: false };
         }
     };
+    // the two delegation queries are views of the same delegations: AllDelegations lists exactly the
+    // pairs the Delegation query shows, with the same amounts
+    for d in 0..nm.delegators.len() as u8 {
+        for v in 0..2u8 {
+            let single = post.deleg[&(d, v)];
+            let listed = post.all_deleg.get(&d).and_then(|m| m.get(&v)).copied().unwrap_or(0);
+            if single != listed {
+                report(
+                    &format!("delegation-queries-disagree:{}", op_kind(op)),
+                    case("AllDelegations and Delegation show the same amounts", json!({"pair": format!("d{} v{}", d + 1, v + 1), "Delegation": single.to_string(), "AllDelegations": listed.to_string()})),
+                );
+            }
+        }
+    }
     let unchanged = app.storage().data == st.storage.data;
     let ok = res.is_ok();
     let mut tolerated_err = false;
